@@ -280,6 +280,14 @@ func (x *Exec) doCall(st *State, fr *Frame, at ssa.Instruction, cc *ssa.CallComm
 		x.setRet(st, fr, retTo, []Val{scalar(tEq(args[0].Fs[0].Fs[1].T, tZero), types.Typ[types.Bool])}, ev)
 		return true
 	}
+	if callee == "fmt.Sprintf" && len(args) == 2 {
+		if t, ok := x.sprintfModel(args[0], args[1]); ok {
+			x.trust("library-model fmt.Sprintf with a literal format of %s/%d/%v verbs is concatenation (itoa uninterpreted)")
+			x.setRet(st, fr, retTo, []Val{scalar(t, types.Typ[types.String])}, ev)
+			x.callSite(st, fr, kind, callee, args, []Val{scalar(t, types.Typ[types.String])}, "after", at)
+			return true
+		}
+	}
 	if x.sortCall(st, fr, callee, args) {
 		x.setRet(st, fr, retTo, nil, ev)
 		x.callSite(st, fr, kind, callee, args, nil, "after", at)
@@ -823,4 +831,71 @@ func (x *Exec) sortCall(st *State, fr *Frame, callee string, args []Val) bool {
 		}
 	}
 	return true
+}
+
+// sprintfModel: fmt.Sprintf with a literal format string made of text and the verbs %s %d %v, applied
+// to strings and integers, is the concatenation of the pieces (integers through the uninterpreted itoa).
+func (x *Exec) sprintfModel(format, va Val) (Term, bool) {
+	if format.K != KScalar || !isStrLit(format.T.S) || va.K != KSlice {
+		return Term{}, false
+	}
+	f := format.T.S[1 : len(format.T.S)-1]
+	if strings.Contains(f, "\\u{") || strings.Contains(f, `""`) {
+		return Term{}, false
+	}
+	elems, ok := x.varargs[va.Fs[0].T.S]
+	if !ok {
+		return Term{}, false
+	}
+	var parts []Term
+	lit := ""
+	argi := 0
+	flush := func() {
+		if lit != "" {
+			parts = append(parts, strLit(lit))
+			lit = ""
+		}
+	}
+	for i := 0; i < len(f); i++ {
+		if f[i] != '%' {
+			lit += string(f[i])
+			continue
+		}
+		if i+1 >= len(f) {
+			return Term{}, false
+		}
+		i++
+		switch f[i] {
+		case '%':
+			lit += "%"
+		case 's', 'd', 'v':
+			v, ok := elems[argi]
+			argi++
+			if !ok || v.K != KScalar {
+				return Term{}, false
+			}
+			flush()
+			switch v.T.Sort {
+			case sStr:
+				parts = append(parts, v.T)
+			case sInt:
+				parts = append(parts, x.uf("itoa", sStr, v.T))
+			default:
+				return Term{}, false
+			}
+		default:
+			return Term{}, false
+		}
+	}
+	flush()
+	if argi != len(elems) {
+		return Term{}, false
+	}
+	switch len(parts) {
+	case 0:
+		return strLit(""), true
+	case 1:
+		return parts[0], true
+	}
+	return app(sStr, "str.++", parts...), true
 }
